@@ -76,7 +76,7 @@ fn book_gen(m: &HashMap<String, String>) {
         } else {
             ticks[rng.gen_range(0..ticks.len())]
         };
-        let trading = if profile == "toggle" { rng.gen::<f64>() < 0.7 } else { true };
+        let trading = if profile == "toggle" || profile == "mixed" { rng.gen::<f64>() < 0.7 } else { true };
         let t0: u64 = if wide { 1 << 40 } else { rng.gen_range(0..100) };
         let np = if rng.gen::<f64>() < 0.3 { n_prices + 3 } else { n_prices };
         let edge = profile == "edge";
@@ -655,6 +655,10 @@ fn real_main() {
         "replay" => replay(&args[2]),
         "env-gen" => env_gen(&m),
         "trunc" => trunc(&m),
+        "price-helpers" => bourse_verif_harness::helpers::run(
+            m.get("seed").and_then(|s| s.parse().ok()).unwrap_or(1),
+            m.get("n").and_then(|s| s.parse().ok()).unwrap_or(1000),
+        ),
         "snap-dump" => snap_dump(&args[2], &args[3]),
         "snap-load" => snap_load(&args[2]),
         "sim-gen" => sim_gen(&m),
